@@ -103,7 +103,7 @@ func RunFiles(cfg hx.Config, dir string, files map[string]string, onlyGenerated 
 	if err := hx.WriteFiles(dir, files); err != nil {
 		return Outcome{Class: "harness-error", Detail: err.Error()}
 	}
-	r := hx.Goderive(cfg.Goderive, dir, ".")
+	r := goderiveRetry(cfg.Goderive, dir, ".")
 	cls, det := classifyRun(r)
 	o := Outcome{Class: cls, Detail: det, Out: hx.Truncate(r.Out, 2000)}
 	if cls == "ok" {
@@ -117,4 +117,16 @@ func RunFiles(cfg hx.Config, dir string, files map[string]string, onlyGenerated 
 		}
 	}
 	return o
+}
+
+// goderiveRetry: a run that hit the 30 s limit is repeated once, with nothing else of this harness started
+// meanwhile by the same worker: a hang of goderive hits the limit again, a run that was starved by other
+// checks on a loaded machine (a 5 ms process) does not.
+func goderiveRetry(bin, dir string, args ...string) hx.RunResult {
+	r := hx.Goderive(bin, dir, args...)
+	if r.TimedOut {
+		os.Remove(filepath.Join(dir, "derived.gen.go"))
+		r = hx.Goderive(bin, dir, args...)
+	}
+	return r
 }
